@@ -133,11 +133,25 @@ def w_exhaustive(strings):
     return evs
 
 
+def record_legacy(doc, desc):
+    """mp_io.from_xml, the legacy importer (information only)."""
+    from metapype.model import mp_io
+    try:
+        root = mp_io.from_xml(doc)
+    except Exception as e:  # noqa: BLE001
+        return [{"op": "failed", "raised": type(e).__name__, "stage": "legacy-import", "desc": desc}]
+    ev = {"op": "import_legacy", "raw": xmlobs.raw_split(xmlobs.parse_raw(doc)), "tree": xmlobs.tree_proj(root), "desc": dict(desc, stage="legacy-import")}
+    Node.store.clear()
+    return [ev]
+
+
 def w_seeded(seeds):
     evs = []
     for seed in seeds:
         rnd = random.Random(seed)
         doc = rdoc(rnd, 0, {}, top=True)
+        if seed % 3 == 0:
+            evs += record_legacy(doc, {"kind": "seeded", "seed": seed})
         if rnd.random() < 0.3:
             doc = '<?xml version="1.0" encoding="UTF-8"?>\n<!-- leading comment -->\n' + doc + "\n"
         m, clean, collapse = rnd.choice(MODES)
@@ -157,7 +171,11 @@ def run(rep, tier, seed):
     nx = 500 if tier == "quick" else 15000
     evs += [e for chunk in parallel(w_seeded, [seed * 2750159 + i for i in range(nx)]) for e in chunk]
     judged = [e for e in evs if e["op"] != "failed"]
+    legacy_info = []
     for e in evs:
+        if e["op"] == "failed" and e["stage"] == "legacy-import":
+            legacy_info.append(f"raised {e['raised']} on {e['desc']}")
+            continue
         if e["op"] == "failed":
             rep.violation(f"{PID}:{e['stage']}:raised:{e['raised']}", f"{e['stage']} raised {e['raised']}; case {e['desc']}", {"kind": "import", "desc": e["desc"]})
     strip = lambda e: {k: v for k, v in e.items() if k != "desc"}  # noqa: E731
@@ -167,12 +185,19 @@ def run(rep, tier, seed):
     rep.cov["traces_validated_against_impl"] = len(judged)
     for rj in rejects:
         e = judged[rj["event"] - 1]
+        if e["op"] == "import_legacy":
+            legacy_info.append(f"{rj['clauses']} on {e['desc']}")
+            continue
         for cl in rj["clauses"]:
             stage = e["desc"].get("stage", "import")
             mode = "raw" if not e["desc"].get("clean") else ("collapse" if e["desc"].get("collapse") else "clean")
             rep.violation(f"{PID}:{stage}:{cl}:{mode}" + (":literal" if e["desc"].get("lits") and e["desc"]["kind"] == "exhaustive" else ""),
                           f"{stage} clause {cl}; case {ascii(e['desc'])}", {"kind": "import", "desc": e["desc"], "clause": cl})
-    rep.notes.update(exhaustive_texts=len(strings), seeded_documents=nx, events=len(evs))
+    rep.notes.update(exhaustive_texts=len(strings), seeded_documents=nx, events=len(evs),
+                     legacy_importer_information={"documents": sum(1 for e in evs if e["op"] == "import_legacy"), "disagreements_with_Xml_CorrLegacy": legacy_info[:5],
+                                                  "count": len(legacy_info)})
+    if legacy_info:
+        print(f"LEGACY-INFO (not a verdict; mp_io.from_xml is not a listed property): {len(legacy_info)} documents disagree with Xml!CorrLegacy; first: {legacy_info[0][:300]}")
     rep.sample({"document": rdoc(random.Random(seed), 0, {}, top=True)[:400]})
     rep.cov["evaluations"] = len(evs)
     rep.cov["distinct_nontrivial"] = len(strings) * 6 + nx
